@@ -268,10 +268,17 @@ Proof. intros H. pystart. pyrunc. Qed.
 
 (** ** the rows of the table *)
 Lemma raw_not_lossy vals : existsb is_lossy (map Stream.sval_raw vals) = false.
-Proof. induction vals as [|[] t IH]; cbn; auto. Qed.
+Proof.
+  induction vals as [|v t IH]; [reflexivity|]. cbn [map existsb]. rewrite IH.
+  destruct v as [| | | | |n x]; cbn [Stream.sval_raw]; try reflexivity.
+  destruct (dyad_norm n x); reflexivity.
+Qed.
 
 Lemma raw_pv vals : map sval_pv (map Stream.sval_raw vals) = map of_sv vals.
-Proof. rewrite map_map. apply map_ext. intros []; reflexivity. Qed.
+Proof.
+  rewrite map_map. apply map_ext. intros [| | | | |n x]; try reflexivity.
+  cbn [Stream.sval_raw of_sv]. destruct (dyad_norm n x); reflexivity.
+Qed.
 
 Lemma div_scale_not_lossy sc zs :
   existsb is_lossy (map (Stream.div_scale sc) (map VInt zs)) = false.
